@@ -732,6 +732,26 @@ func condEdges(fn *ssa.Function, match func(a Atom) (bool, bool), depth int) (ed
 type Point struct {
 	Block *ssa.BasicBlock
 	Idx   int
+	// Via and Dec describe how the point was reached when it is the far end of
+	// a branch edge (see AfterEdge): the block the edge leaves, and the
+	// decision that taking the edge implies.
+	Via *ssa.BasicBlock
+	Dec string
+}
+
+// AfterEdge is the start of the block an edge leads to, remembering the
+// decision taken at the edge's branch: a search that starts there knows that
+// the branch condition had that outcome.
+func AfterEdge(e Edge) Point {
+	pt := Point{Block: e.From.Succs[e.Succ], Idx: 0, Via: e.From}
+	if ck, atomTrueSucc := correlKey(e.From, nil); ck != "" {
+		val := "F"
+		if e.Succ == atomTrueSucc {
+			val = "T"
+		}
+		pt.Dec = ck + "=" + val + ";"
+	}
+	return pt
 }
 
 // PointOf locates an instruction.
@@ -739,14 +759,14 @@ func PointOf(in ssa.Instruction) Point {
 	b := in.Block()
 	for i, x := range b.Instrs {
 		if x == in {
-			return Point{b, i}
+			return Point{Block: b, Idx: i}
 		}
 	}
-	return Point{b, 0}
+	return Point{Block: b, Idx: 0}
 }
 
 // Entry is the entry point of fn.
-func Entry(fn *ssa.Function) Point { return Point{fn.Blocks[0], 0} }
+func Entry(fn *ssa.Function) Point { return Point{Block: fn.Blocks[0], Idx: 0} }
 
 // Query is a forward reachability question on the CFG of one function:
 // starting at From (exclusive of instructions before it), is there a path to
@@ -818,14 +838,21 @@ func Reach(q Query) (found bool, trace []*ssa.BasicBlock, hit ssa.Instruction) {
 	// by `if n > 0 {...}` has no path that takes the first false and the
 	// second true.  Those are the infeasible paths behaviour-preserving
 	// restructurings introduce most often.
+	// It is path-sensitive for a second class as well: a block that starts with a
+	// phi of constants and ends with a branch on that phi (what `if !helper(x)`
+	// becomes when the helper's `return false` / `return true` are expanded in
+	// place, or `ok := false; if c { ok = true }; if ok`): the branch goes the way
+	// the constant arriving over the edge just taken says.
 	type key struct {
 		b   *ssa.BasicBlock
 		dec string
+		via *ssa.BasicBlock
 	}
 	type state struct {
 		b    *ssa.BasicBlock
 		from int
 		dec  string
+		via  *ssa.BasicBlock
 	}
 	if q.Avoid != nil && !q.Shallow {
 		q.Avoid = LiftAvoid(q.Avoid, 2)
@@ -835,7 +862,11 @@ func Reach(q Query) (found bool, trace []*ssa.BasicBlock, hit ssa.Instruction) {
 	hasParent := map[key]bool{}
 	var work []state
 	for _, p := range q.From {
-		work = append(work, state{p.Block, p.Idx, ""})
+		var via *ssa.BasicBlock
+		if p.Idx == 0 && p.Via != nil && branchesOnOwnPhi(p.Block) {
+			via = p.Via
+		}
+		work = append(work, state{p.Block, p.Idx, p.Dec, via})
 	}
 	startBlocks := map[*ssa.BasicBlock]bool{}
 	for _, p := range q.From {
@@ -849,7 +880,7 @@ func Reach(q Query) (found bool, trace []*ssa.BasicBlock, hit ssa.Instruction) {
 		if steps > 200000 {
 			break
 		}
-		k := key{s.b, s.dec}
+		k := key{s.b, s.dec, s.via}
 		if s.from == 0 {
 			if visited[k] {
 				continue
@@ -880,8 +911,15 @@ func Reach(q Query) (found bool, trace []*ssa.BasicBlock, hit ssa.Instruction) {
 		if blocked {
 			continue
 		}
-		ck, atomTrueSucc := correlKey(s.b)
+		ck, atomTrueSucc := correlKey(s.b, s.via)
+		only := -1
+		if s.via != nil && s.from == 0 {
+			only = phiBranch(s.b, s.via)
+		}
 		for i, succ := range s.b.Succs {
+			if only >= 0 && i != only {
+				continue // the constant that arrived over the edge taken decides the branch
+			}
 			if q.AvoidEdges != nil && q.AvoidEdges[Edge{s.b, i}] {
 				continue
 			}
@@ -899,23 +937,127 @@ func Reach(q Query) (found bool, trace []*ssa.BasicBlock, hit ssa.Instruction) {
 					dec += ck + "=" + val + ";"
 				}
 			}
-			nk := key{succ, dec}
+			var via *ssa.BasicBlock
+			if branchesOnOwnPhi(succ) {
+				via = s.b
+			}
+			nk := key{succ, dec, via}
 			if !visited[nk] {
 				if !hasParent[nk] {
 					parent[nk] = k
 					hasParent[nk] = true
 				}
-				work = append(work, state{succ, 0, dec})
+				work = append(work, state{succ, 0, dec, via})
 			}
 		}
 	}
 	return false, nil, nil
 }
 
+// ownPhiCond returns the phi of b that its terminating If tests (directly,
+// negated, or compared with a constant), with the decomposed condition.
+func ownPhiCond(b *ssa.BasicBlock) (*ssa.Phi, Atom, bool) {
+	if len(b.Instrs) == 0 {
+		return nil, Atom{}, false
+	}
+	iff, ok := b.Instrs[len(b.Instrs)-1].(*ssa.If)
+	if !ok {
+		return nil, Atom{}, false
+	}
+	at := Decompose(iff.Cond)
+	phi, ok := at.Base.(*ssa.Phi)
+	if !ok || phi.Block() != b {
+		return nil, Atom{}, false
+	}
+	switch at.Op {
+	case token.ILLEGAL:
+	case token.EQL, token.NEQ:
+		if _, isC := at.Other.(*ssa.Const); !isC {
+			return nil, Atom{}, false
+		}
+	default:
+		return nil, Atom{}, false
+	}
+	return phi, at, true
+}
+
+var ownPhiMemo = map[*ssa.BasicBlock]bool{}
+
+func branchesOnOwnPhi(b *ssa.BasicBlock) bool {
+	if r, ok := ownPhiMemo[b]; ok {
+		return r
+	}
+	_, _, ok := ownPhiCond(b)
+	ownPhiMemo[b] = ok
+	return ok
+}
+
+// phiBranch returns the successor index b's branch takes when b was entered
+// from via, or -1 when the value arriving over that edge does not decide it.
+func phiBranch(b, via *ssa.BasicBlock) int {
+	phi, at, ok := ownPhiCond(b)
+	if !ok {
+		return -1
+	}
+	idx := -1
+	for i, p := range b.Preds {
+		if p == via {
+			if idx >= 0 {
+				return -1 // both edges of a branch arrive here
+			}
+			idx = i
+		}
+	}
+	if idx < 0 || idx >= len(phi.Edges) {
+		return -1
+	}
+	v := phi.Edges[idx]
+	var atomVal bool
+	switch at.Op {
+	case token.ILLEGAL:
+		c, isC := ConstBool(v)
+		if !isC {
+			return -1
+		}
+		atomVal = c
+	default:
+		other := at.Other.(*ssa.Const)
+		var equal bool
+		switch {
+		case other.Value == nil: // nil / zero
+			if IsNilConst(v) {
+				equal = true
+			} else if provablyNonNil(v) {
+				equal = false
+			} else if c, isC := v.(*ssa.Const); isC && c.Value != nil {
+				equal = false
+			} else {
+				return -1
+			}
+		default:
+			c, isC := v.(*ssa.Const)
+			if !isC || c.Value == nil {
+				return -1
+			}
+			equal = c.Value.ExactString() == other.Value.ExactString()
+		}
+		atomVal = equal == (at.Op == token.EQL)
+	}
+	cond := atomVal != at.Neg
+	if cond {
+		return 0
+	}
+	return 1
+}
+
 // correlKey returns a key for the branch condition at the end of b when it
-// depends only on immutable inputs of the function, and the successor index
-// on which the condition's atom is true.
-func correlKey(b *ssa.BasicBlock) (string, int) {
+// depends only on values that cannot change along a path — inputs of the
+// function, constants, and SSA values computed outside of any loop (an SSA
+// value is assigned once; outside a loop it is computed at most once per path)
+// — and the successor index on which the condition's atom is true.  When b
+// was entered from via and branches on a phi of its own, the value arriving
+// over that edge stands for the phi.
+func correlKey(b, via *ssa.BasicBlock) (string, int) {
 	if len(b.Instrs) == 0 {
 		return "", 0
 	}
@@ -924,6 +1066,28 @@ func correlKey(b *ssa.BasicBlock) (string, int) {
 		return "", 0
 	}
 	at := Decompose(iff.Cond)
+	if via != nil {
+		if phi, pat, isPhi := ownPhiCond(b); isPhi {
+			idx := -1
+			for i, p := range b.Preds {
+				if p == via {
+					idx = i
+				}
+			}
+			if idx < 0 || idx >= len(phi.Edges) {
+				return "", 0
+			}
+			// the arriving value may itself be a (negated) condition
+			in := Decompose(phi.Edges[idx])
+			if pat.Op == token.ILLEGAL {
+				at = Atom{Base: in.Base, Op: in.Op, Other: in.Other, Neg: in.Neg != pat.Neg}
+			} else if in.Op == token.ILLEGAL && !in.Neg {
+				at = Atom{Base: in.Base, Op: pat.Op, Other: pat.Other, Neg: pat.Neg}
+			} else {
+				return "", 0
+			}
+		}
+	}
 	immutable := func(v ssa.Value) (string, bool) {
 		switch x := v.(type) {
 		case *ssa.Parameter:
@@ -944,6 +1108,12 @@ func correlKey(b *ssa.BasicBlock) (string, int) {
 					}
 				}
 			}
+		}
+		if _, isPhi := v.(*ssa.Phi); isPhi {
+			return "", false
+		}
+		if in, isIn := v.(ssa.Instruction); isIn && in.Block() != nil && !inCycle(in.Block()) {
+			return fmt.Sprintf("v%p", v), true
 		}
 		return "", false
 	}
@@ -966,6 +1136,40 @@ func correlKey(b *ssa.BasicBlock) (string, int) {
 		succ = 1
 	}
 	return kb + "|" + at.Op.String() + "|" + ko, succ
+}
+
+var cycleMemo = map[*ssa.Function]map[*ssa.BasicBlock]bool{}
+
+// InCycle reports whether b lies on a cycle of its function's CFG.
+func InCycle(b *ssa.BasicBlock) bool { return inCycle(b) }
+
+// inCycle reports whether b lies on a cycle of its function's CFG.
+func inCycle(b *ssa.BasicBlock) bool {
+	fn := b.Parent()
+	m, ok := cycleMemo[fn]
+	if !ok {
+		m = map[*ssa.BasicBlock]bool{}
+		for _, x := range fn.Blocks {
+			// x is on a cycle iff x is reachable from one of its successors
+			seen := map[*ssa.BasicBlock]bool{}
+			stack := append([]*ssa.BasicBlock{}, x.Succs...)
+			for len(stack) > 0 && !m[x] {
+				y := stack[len(stack)-1]
+				stack = stack[:len(stack)-1]
+				if y == x {
+					m[x] = true
+					break
+				}
+				if seen[y] {
+					continue
+				}
+				seen[y] = true
+				stack = append(stack, y.Succs...)
+			}
+		}
+		cycleMemo[fn] = m
+	}
+	return m[b]
 }
 
 // IsReturn matches normal return instructions.
@@ -1307,7 +1511,7 @@ func provablyNonNil(v ssa.Value) bool {
 		return true
 	case *ssa.Call:
 		k := CalleeKey(x.Common())
-		return k == "fmt.Errorf" || k == "errors.New" || strings.HasSuffix(k, "errors.Error") || strings.HasPrefix(k, "github.com/AdguardTeam/golibs/errors.")
+		return k == "fmt.Errorf" || k == "errors.New" || strings.HasSuffix(k, "errors.Error")
 	case *ssa.ChangeInterface:
 		return provablyNonNil(x.X)
 	}
